@@ -413,6 +413,13 @@ func scnDidReg(ctx *check.JobCtx) {
 			}
 			sid := sids[r.Intn(len(sids))]
 			st := snapshotDid(w.C)
+			if r.Intn(2) == 0 {
+				for _, f := range funded {
+					if st.DidOf[f.AccountID()] == sid.DID() {
+						acct = f
+					}
+				}
+			}
 			list := append([]string{}, st.AccountList[sid.DID()]...)
 			if len(list) == 0 {
 				continue
@@ -434,10 +441,25 @@ func scnDidReg(ctx *check.JobCtx) {
 					keep = append(keep, &didtypes.AccountAuth{AccountDid: ad, AccountEncryptedSeed: "s2", SidEncryptedAccount: "a2"})
 				}
 			}
+			// sometimes the request also names account-dids that belong to another DID
+			foreign := false
+			if r.Intn(4) == 0 {
+				for otherDid, l2 := range st.AccountList {
+					if otherDid != sid.DID() && len(l2) > 0 {
+						if r.Intn(2) == 0 {
+							remove = append(remove, l2[0])
+						} else {
+							keep = append(keep, &didtypes.AccountAuth{AccountDid: l2[0], AccountEncryptedSeed: "s3", SidEncryptedAccount: "a3"})
+						}
+						foreign = true
+						break
+					}
+				}
+			}
 			ts := now()
 			nv := actors.NewSidVersion(sid.Name, len(sid.Versions)+i, ts)
 			m := &didtypes.MsgUpdate{Creator: acct.Addr.String(), Did: sid.DID(), NewDocId: nv.DocId, Keys: nv.Keys, Timestamp: ts, UpdateAccountAuth: keep, RemoveAccountDid: remove, PastSeed: fmt.Sprintf("seed%d", i)}
-			cs := fmt.Sprintf("rotate/creator-bound=%v/removes=%d/removes-payment=%v/keeps=%d", st.DidOf[acct.AccountID()] == sid.DID(), minInt(len(remove), 2), removesPay, minInt(len(keep), 2))
+			cs := fmt.Sprintf("rotate/creator-bound=%v/removes=%d/removes-payment=%v/keeps=%d/foreign=%v", st.DidOf[acct.AccountID()] == sid.DID(), minInt(len(remove), 2), removesPay, minInt(len(keep), 2), foreign)
 			if e := w.Deliver("did-update", acct, map[string]interface{}{"c17.case": cs}, m); e.OK {
 				sid.Versions = append(sid.Versions, nv)
 			}
